@@ -13,6 +13,7 @@ import (
 
 	"github.com/zitadel/logging"
 
+	"verif/harness/internal/c16"
 	"verif/harness/internal/c20"
 )
 
@@ -35,6 +36,8 @@ func main() {
 	stdlog.SetOutput(io.Discard)
 	var err error
 	switch prop {
+	case "C16":
+		err = c16.Run(*out, *tier, *seed)
 	case "C20":
 		err = c20.Run(*out, *tier, *seed)
 	default:
